@@ -174,7 +174,8 @@ def run(ctx):
             if o.kind != 'value':
                 continue
             x = o.val
-            if c05.roundtrip(T, x, ty) is not None:
+            rt = c05.roundtrip(T, x, ty)
+            if rt is not None and rt[0] != 'not-interchange':    # (data that is not pure interchange is exactly what a dumper may refuse: go on)
                 ctx.count('in_memory_round_trip_fails_skipped')
                 continue
             d = env.into_data(x, T)
